@@ -485,7 +485,16 @@ impl<T> Outcome<T> {
     }
 }
 
+thread_local! {
+    pub static LAST_ERR: std::cell::RefCell<String> = std::cell::RefCell::new(String::new());
+}
+
+pub fn last_err() -> String {
+    LAST_ERR.with(|c| c.borrow().clone())
+}
+
 pub fn status_kind(s: &Status) -> String {
+    LAST_ERR.with(|c| *c.borrow_mut() = s.message().to_string());
     // code + policy tag (first token of the message when it looks like a policy tag)
     let msg = s.message();
     let tag = msg.split(|c: char| c == ':' || c == ' ').find(|t| t.starts_with("policy-")).unwrap_or("");
